@@ -2,11 +2,11 @@
 package main
 
 import (
-	"runtime/pprof"
 	"encoding/json"
 	"flag"
 	"fmt"
 	"os"
+	"runtime/pprof"
 	"sort"
 	"strings"
 	"time"
